@@ -281,6 +281,7 @@ def search(acc: Acc, tier, shard, nshards):
         nf = ch.choice([0, 1, 1, 1, 2])
         flist = []
         allc = [(site, cand) for site in sites for cand in faults.candidate_faults(site[1])]
+        allc += [(site, (None, None, "member_not_object")) for site in sites if site[2] and isinstance(site[2][-1], int)]
         for _ in range(nf):
             kind = ch.choice(faults.FAULT_KINDS)
             pool = [sc for sc in allc if sc[1][2] == kind] or allc
@@ -288,6 +289,10 @@ def search(acc: Acc, tier, shard, nshards):
             site, cand = ch.choice(deep if (deep and ch.chance(2, 3)) else pool)
             if any(f["dpath"] == list(site[2]) and (f["key"] == cand[1] or f["object_level"] or cand[0] is None) for f in flist):
                 continue  # one fault per keyword; object-level faults not mixed with others in one object
+            if cand[2] == "member_not_object" and flist:
+                continue  # replacing a whole child object: only as the single fault of a document
+            if any(f["kind"] == "member_not_object" for f in flist):
+                continue
             f = faults.apply_fault(ch, d, site, cand)
             if f is None:
                 acc.excl("fault_not_invalid_or_inapplicable")
@@ -360,6 +365,8 @@ def replay(case):
             o.pop(f["key"], None)
         elif f["kind"] == "repeated_item":
             o[f["key"]][f["occurrence"]] = eval(f["value"], {"__builtins__": {}}, {})
+        elif f["kind"] == "member_not_object":
+            o[f["key"]][f["index"]] = eval(f["value"], {"__builtins__": {}}, {})
         else:
             o[f["key"]] = eval(f["value"], {"__builtins__": {}}, {})
     return check(d, case["root"], case.get("faults", []), case)
